@@ -212,6 +212,19 @@ def t_order():
             prove("typed-selection-sorted", list(nn2) == sorted(s for s in sub if s.startswith("feat_con_")))
             for k, nm in enumerate(nn2):
                 prove(f"typed-value-belongs-to-name[{nm}]", same(_num(vals2.elems[k]), single[nm]))
+    # the type selection given as a list/tuple, in either order
+    for wt in (["continuous", "binary"], ["binary", "continuous"], ("continuous", "binary"), ["binary"]):
+        want = sorted(n for n in ALL if any(n.startswith("feat_" + t[:3] + "_") for t in wt))
+        got = IF.get_feature_names(which_type=wt)
+        prove("type-list-selection-sorted", list(got) == want, info={"which_type": list(wt), "names": list(got)})
+        nn3, idx3 = IF.get_feature_names(which_type=wt, ret_indices=True)
+        prove("indices-belong-to-names", [ALL[i] for i in idx3] == list(nn3), info={"which_type": list(wt)})
+        with warnings.catch_warnings():
+            warnings.simplefilter("ignore")
+            vals3, nn4 = IF.compute_features(idnt, which_type=wt, ret_names=True)
+        prove("type-list-values-sorted-by-name", list(nn4) == want)
+        for k, nm in enumerate(nn4):
+            prove(f"type-list-value-belongs-to-name[{nm}]", same(_num(vals3.elems[k]), single[nm]))
     try:
         IF.get_feature_names(names=["feat_con_nope"])
         prove("unknown-name-rejected", False)
@@ -303,6 +316,11 @@ from nanite.rate.features import IndentationFeatures as IF
 print("structural obligation", {ob["name"]!r}, "- re-evaluated on the real class")
 names = IF.get_feature_names()
 bad = list(names) != sorted(names)
+for wt in (["continuous", "binary"], ["binary", "continuous"], ("continuous", "binary"), ["binary"]):
+    want = sorted(n for n in names if any(n.startswith("feat_" + t[:3] + "_") for t in wt))
+    got, idx = IF.get_feature_names(which_type=wt, ret_indices=True)
+    if list(got) != want or [names[j] for j in idx] != list(got):
+        print("which_type", wt, "gives", got, idx); bad = True
 x = np.linspace(1e-6, -1e-6, 40); y = np.linspace(0, 1e-9, 40)
 i = nanite.Indentation(data={{"tip position": x, "force": y, "segment": np.zeros(40, dtype=np.uint8)}},
                        metadata={{"path": "/s/c.jpk-force", "enum": 0, "point count": 40, "imaging mode": "force-distance"}})
